@@ -131,8 +131,10 @@ void h_import64(void) {
   ALLOC_STDVEC(m.halfedgeTangent, double);
   struct Manifold_Impl impl = {0};  /* default-constructed Impl: every Vec empty */
   ghost_made_empty = 0; ghost_status = -1; ghost_reached_create = 0;
+  ghost_g = nondet_ulong();   /* arbitrary triangle index (globals are zero-initialised) */
   ghost_ntri_in = m.triVerts._size / 3;
   HARNESS_END; /* vacuity canary sits before the call: the harness makes no assumptions beyond allocation */
+  SATISFIABLE(ghost_g > 5);
   Impl_FromMeshGL64(&impl, &m, 0);
   /* error-or-valid: the ladder ends in MakeEmpty(err) or hands a consistent mesh to CreateHalfedges */
   __CPROVER_assert(ghost_made_empty || ghost_reached_create, "ladder returns through MakeEmpty or reaches CreateHalfedges");
@@ -156,8 +158,10 @@ void h_import32(void) {
   ALLOC_STDVEC(m.halfedgeTangent, float);
   struct Manifold_Impl impl = {0};  /* default-constructed Impl: every Vec empty */
   ghost_made_empty = 0; ghost_status = -1; ghost_reached_create = 0;
+  ghost_g = nondet_ulong();   /* arbitrary triangle index (globals are zero-initialised) */
   ghost_ntri_in = m.triVerts._size / 3;
   HARNESS_END;
+  SATISFIABLE(ghost_g > 5);
   Impl_FromMeshGL32(&impl, &m, 0);
   /* error-or-valid: the ladder ends in MakeEmpty(err) or hands a consistent mesh to CreateHalfedges */
   __CPROVER_assert(ghost_made_empty || ghost_reached_create, "ladder returns through MakeEmpty or reaches CreateHalfedges");
